@@ -652,7 +652,7 @@ func suiteBlend(rep *Report) error {
 
 func suiteAnimDec(rep *Report) error {
 	rich := rep.Tier == "thorough"
-	rep.Rule = "animations built programmatically (frames are *image.NRGBA at origin 0,0): (1) exhaustive 2x2 canvas, 2 frames over offsets {-2,0,2}^2 x sizes {1x1,2x2,3x3,2x1} x blend x dispose x (alpha 255 flag off/on, 128, 0) and 3 frames over a reduced grid; (1b) 2 frames whose pixels do not depend on the frame number (per-index and flat), alphas {1,128,254}, offsets {(0,0),(1,0),(-1,-1)} x sizes {1x1,2x2,2x1} x blend x dispose — the second frame carries exactly the pixels the first left on the canvas; (1c) the blend grid through compositeFrame: 1x1 canvas, frame 0 = pixel d with BlendNone, frame 1 = pixel s with BlendAlpha, all 256 alphas for 24 channel triples on the s==d diagonal, with alpha^1 below, and with other channels below; (2) random canvases up to 16x16, up to 12 frames, offsets -3..canvas+2, sizes 0..canvas+2, per-pixel alphas from {0,1,127,128,254,255} or random, HasAlpha consistent with the pixels, with a 1-in-6 'draw the previous frame again' move (same pixels, same or overlapping offset, BlendAlpha over DisposeNone, alphas kept / redrawn from {1,127,128,254} / flat); (3) extreme int64 offsets; (4) NewAnimDecoder size errors; (5) a flags-lie stream (HasAlpha=false on translucent frames) compared with the model only and counted against the spec; (6) a sub-image-origin probe; every case: Go AnimDecoder snapshots vs Lean implementation model (correspondence) and vs Lean specification (C09), re-hash of all earlier snapshots after every call, Reset+replay on the same decoder, and k frames+Reset+replay vs the model; blend: all 65536 alpha pairs for 64+ channel triples plus random pixels. non-trivial = at least 2 frames"
+	rep.Rule = "animations built programmatically (frames are *image.NRGBA at origin 0,0): (1) exhaustive 2x2 canvas, 2 frames over offsets {-2,0,2}^2 x sizes {1x1,2x2,3x3,2x1} x blend x dispose x (alpha 255 flag off/on, 128, 0) and 3 frames over a reduced grid; (1b) 2 frames whose pixels do not depend on the frame number (per-index and flat), alphas {1,128,254}, offsets {(0,0),(1,0),(-1,-1)} x sizes {1x1,2x2,2x1} x blend x dispose — the second frame carries exactly the pixels the first left on the canvas; (1c) the blend grid through compositeFrame: 1x1 canvas, frame 0 = pixel d with BlendNone, frame 1 = pixel s with BlendAlpha, all 256 alphas for 24 channel triples on the s==d diagonal, with alpha^1 below, and with other channels below; (2) random canvases up to 16x16, up to 12 frames, offsets -3..canvas+2, sizes 0..canvas+2, per-pixel alphas from {0,1,127,128,254,255} or random, HasAlpha consistent with the pixels, with a 1-in-6 'draw the previous frame again' move (same pixels, same or overlapping offset, BlendAlpha over DisposeNone, alphas kept / redrawn from {1,127,128,254} / flat); (3) extreme int64 offsets; (4) NewAnimDecoder size errors; (5) a flags-lie stream (HasAlpha=false on translucent frames) compared with the model only and counted against the spec; (6) a sub-image-origin probe; (7) wide / tall canvases (widths 1023,1024,1025,1100,2049,4097 x heights 2,3 plus a few canvases drawn around the numeric thresholds of thresholds.go): canvas-filling frame, a non-key sub-frame wider than 1024 pixels (full width without the first row, or from x = 1000) with DisposeBackground, then a small BlendAlpha frame; every case: Go AnimDecoder snapshots vs Lean implementation model (correspondence) and vs Lean specification (C09), re-hash of all earlier snapshots after every call, Reset+replay on the same decoder, and k frames+Reset+replay vs the model; blend: all 65536 alpha pairs for 64+ channel triples plus random pixels. non-trivial = at least 2 frames"
 	b := &animBatch{rep: rep}
 	// (1) exhaustive
 	offs := [][2]int{}
@@ -781,6 +781,87 @@ func suiteAnimDec(rep *Report) error {
 		c.subOrigin = 1 + r.Intn(3)
 		c.resetAt = -1
 		b.add(c)
+	}
+	// (7) wide / tall canvases: rows longer than any per-row fast path's buffer (1024-pixel pages, 2048 /
+	// 4096-entry scratch). Frame 0 fills the canvas; frame 1 is a NON-key sub-frame wider than the
+	// threshold - full width without the first row, or starting at x = 1000 (x = 0 for canvases narrower
+	// than 1100), or a row range of a tall canvas - with DisposeBackground on 3 of 4; frame 2 is a small
+	// BlendAlpha frame, so that the canvas after the disposal is seen in a snapshot; sometimes a 4th frame.
+	// Compared with the Lean model and specification like every other case (98 KB of pixels per frame at
+	// 4097x3, so the number of cases is small).
+	{
+		type wh struct{ w, h int }
+		var dims []wh
+		for _, w := range []int{1023, 1024, 1025, 1100, 2049, 4097} {
+			for _, h := range []int{2, 3} {
+				dims = append(dims, wh{w, h})
+			}
+		}
+		// threshold-crossing canvases drawn from the shared list (widths and heights, tiny other side)
+		nDraw := 6
+		if rich {
+			nDraw = 40
+		}
+		for _, tc := range DrawThresholdCases(rep.Seed, 0x09, nDraw, ThresholdFilter{Units: []string{"width", "height"}, MinValue: 200, MaxW: 8200, MaxH: 4100, Tiny: []int{2, 3}}) {
+			dims = append(dims, wh{tc.W, tc.H})
+			CountThreshold(rep, tc)
+		}
+		for di, d := range dims {
+			for variant := 0; variant < 2; variant++ {
+				r := NewRNG(rep.Seed, uint64(8700000+di*4+variant))
+				c := &aCase{w: d.w, h: d.h, kind: "wide", resetAt: -1}
+				full := aFrame{0, 0, d.w, d.h, r.Bool(), false, false, nil}
+				full.pix = genPixels(r, d.w*d.h, []int{0, 4, 1}[r.Intn(3)])
+				full.hasAlpha = !allOpaque(full.pix)
+				var sub aFrame
+				wide := d.w >= d.h
+				switch {
+				case wide && variant == 0: // full width, all rows but the first
+					sub = aFrame{offX: 0, offY: 1, fw: d.w, fh: d.h - 1}
+				case wide: // starts at x = 1000 (or 0), a few columns short of the right edge sometimes
+					ox := 1000
+					if d.w < 1100 {
+						ox = 0
+					}
+					sub = aFrame{offX: ox, offY: 0, fw: d.w - ox - r.Intn(2), fh: d.h - 1 + r.Intn(2)}
+					if sub.offX == 0 && sub.fw == d.w && sub.fh == d.h {
+						sub.fh = d.h - 1
+					}
+				case variant == 0: // tall canvas: all columns but the first
+					sub = aFrame{offX: 1, offY: 0, fw: d.w - 1, fh: d.h}
+					if d.w == 1 {
+						sub = aFrame{offX: 0, offY: 1, fw: 1, fh: d.h - 1}
+					}
+				default:
+					sub = aFrame{offX: 0, offY: 1000 % d.h, fw: d.w, fh: d.h - 1000%d.h - r.Intn(2)}
+					if sub.offY == 0 && sub.fh == d.h {
+						sub.offY, sub.fh = 1, d.h-1
+					}
+				}
+				sub.disposeBG = r.Chance(3, 4)
+				sub.blendNone = r.Bool()
+				sub.pix = genPixels(r, sub.fw*sub.fh, []int{1, 4, 0, 3}[r.Intn(4)])
+				sub.hasAlpha = !allOpaque(sub.pix) || r.Bool()
+				small := aFrame{offX: r.Intn(maxi(d.w-3, 1)), offY: r.Intn(d.h), fw: mini(3, d.w), fh: 1, blendNone: false, disposeBG: r.Bool()}
+				small.pix = genPixels(r, small.fw*small.fh, 1)
+				small.hasAlpha = true
+				c.frames = []aFrame{full, sub, small}
+				if r.Chance(1, 3) { // once more: a second wide dispose after a non-key frame
+					again := sub
+					again.pix = append([]byte(nil), sub.pix...)
+					again.disposeBG = true
+					c.frames = append(c.frames, again, small)
+				}
+				if variant == 1 && di%3 == 0 {
+					c.resetAt = 2
+				}
+				b.add(c)
+				rep.Count(fmt.Sprintf("wide:canvas=%dx%d", d.w, d.h))
+				if sub.disposeBG && sub.fw > 1024 {
+					rep.Count("wide:dispose-background-rect-wider-than-1024")
+				}
+			}
+		}
 	}
 	b.flush()
 	if b.err != nil {
